@@ -30,7 +30,7 @@ Next == /\ ~out.done
 FindIsLeftmost == (out.done /\ Has("find")) => out.find.res = FindSub(h, n) /\ out.top.res = FindSub(h, n)
 RFindIsRightmost == (out.done /\ Has("rfind")) => out.rfind.res = RFindSub(h, n) /\ out.rtop.res = RFindSub(h, n)
 IterIsGreedy == (out.done /\ Has("iter")) => out.it.ok /\ out.it.seq = GreedyFwd(h, n)
-RevIterIsGreedy == (out.done /\ Has("iter")) => out.rit.ok /\ out.rit.seq = GreedyRev(h, n)
+RevIterIsGreedy == (out.done /\ Has("riter")) => out.rit.ok /\ out.rit.seq = GreedyRev(h, n)
 EmptyNeedleEveryOffset == (out.done /\ Len(n) = 0) => /\ (Has("iter") => out.it.seq = [i \in 1..Len(h) + 1 |-> i - 1])
                                                        /\ (Has("riter") => out.rit.seq = [i \in 1..Len(h) + 1 |-> Len(h) + 1 - i])
 NoPanic == out.done => ~out.find.bad /\ ~out.it.cost.bad /\ ~out.rfind.bad /\ ~out.rit.cost.bad /\ ~out.pbad
